@@ -68,6 +68,12 @@ lbl:
 	case int:
 		_ = t
 	}
+	switch q := 7; u := interface{}(q).(type) {
+	case int:
+		_ = u
+	}
+	if w := x; w > 0 {
+	}
 	var ch C
 	select {
 	case ch <- 1:
@@ -177,6 +183,39 @@ func TestGowpReplayC22(t *testing.T) {
 			case "token.Pos":
 				if posFlags[key] && (a.Field(k).Int() == 0) != (b.Field(k).Int() == 0) {
 					t.Fatalf("GOWP-REPLAY-FAIL %s.New() does not keep whether %s is present", name, fld.Name)
+				}
+			}
+		}
+	}
+	// the round trip proper: an empty copy, every child read from the original and stored into it
+	nodeT := reflect.TypeOf((*ast.Node)(nil)).Elem()
+	for _, n := range gowpNodes(t) {
+		name := reflect.TypeOf(n).Elem().Name()
+		x := ToAst(n)
+		if _, isList := x.(AstWithSlice); isList || name == "Package" {
+			continue
+		}
+		z := x.New()
+		for i := 0; i < x.Size(); i++ {
+			z.Set(i, x.Get(i))
+		}
+		a, b := reflect.ValueOf(n).Elem(), reflect.ValueOf(ToNode(z)).Elem()
+		for k := 0; k < a.NumField(); k++ {
+			fld := a.Type().Field(k)
+			ft := fld.Type
+			if fld.Name == "TypeParams" || ft.String() == "*ast.CommentGroup" || ft.String() == "*ast.Object" || ft.String() == "*ast.Scope" {
+				continue
+			}
+			switch {
+			case ft.Implements(nodeT):
+				av, bv := a.Field(k), b.Field(k)
+				if av.IsNil() != bv.IsNil() || (!av.IsNil() && av.Interface() != bv.Interface()) {
+					t.Fatalf("GOWP-REPLAY-FAIL rebuilding a %s from its parts: the child %s is not the original child", name, fld.Name)
+				}
+			case ft.Kind() == reflect.Slice && ft.Elem().Implements(nodeT):
+				av, bv := a.Field(k), b.Field(k)
+				if av.Len() != bv.Len() || (av.Len() > 0 && av.Index(0).Interface() != bv.Index(0).Interface()) {
+					t.Fatalf("GOWP-REPLAY-FAIL rebuilding a %s from its parts: the list %s is not the original list", name, fld.Name)
 				}
 			}
 		}
